@@ -247,8 +247,24 @@ func specErrorsIs(env *Env, recv *Val, args []Val, st *State, call *ast.CallExpr
 	c := env.c
 	c.decls.declFun("err_is", []string{"Int", "Int"}, "Bool")
 	c.decls.axiom("err_is", "(forall ((e Int) (t Int)) (! (and (=> (= e t) (err_is e t)) (=> (= e 0) (= (err_is e t) (= t 0)))) :pattern ((err_is e t))))")
-	c.trust("errors.Is: reflexive, false for a nil error against a non-nil target; wrapping chains uninterpreted")
+	c.trust("errors.Is: reflexive, false for a nil error against a non-nil target, false between two different package-level sentinel errors (plain errors.New values); wrapping chains uninterpreted")
+	c.errIsUsed = true
+	c.sentinelIsAxioms()
 	return boolVal(app("err_is", args[0].T, args[1].T))
+}
+
+// sentinelIsAxioms: errors.Is(a, b) is false for two different sentinel errors a and b.
+func (c *Ctx) sentinelIsAxioms() {
+	if !c.errIsUsed {
+		return
+	}
+	for a := range c.sentinels {
+		for b := range c.sentinels {
+			if a != b {
+				c.decls.axiom("err_is/"+a+"/"+b, fmt.Sprintf("(not (err_is %s %s))", a, b))
+			}
+		}
+	}
 }
 
 func specNewError(env *Env, recv *Val, args []Val, st *State, call *ast.CallExpr) Val {
